@@ -15,6 +15,7 @@ simplifications, `Expr.rebuild` of Model/Replace.lean) gives the model compared 
 `plainRb` (no simplification) gives the plain rewriting the value theorems are stated for.
 -/
 import UflVerif.Model.Replace
+import UflVerif.Model.Rb
 import UflVerif.Gen.Dispatch
 
 namespace UflVerif
@@ -133,7 +134,7 @@ def realOf (a : Expr) : Expr :=
 
 /-! ### node reconstruction -/
 
-abbrev Rb := Op → List Nat → List Expr → Option Expr
+
 
 /-- node construction without any simplification -/
 def plainRb : Rb := fun k aux args => some (.op k aux args)
